@@ -2,6 +2,7 @@
 from .. import core
 
 CLAUSES = {
+    20: "target.remote kept a limit permit (message, source or destination scope) after the delivery was committed, aborted or refused",
     1: "more deliveries hold a permit than the configured concurrency limit of a scope (all / source IP / sender domain / destination domain)",
     2: "returning a permit that is held crashed (mismatched Release)",
     3: "acquiring a permit crashed",
@@ -16,17 +17,21 @@ TRUSTED = [
 
 def run(ctx):
     ctx.trusted = TRUSTED
-    ok, detail = core.coq_build(ctx, ["theories/Props/C11.vo", "theories/Limits/Corr.vo"])
+    ok, detail = core.coq_build(ctx, ["theories/Props/C11.vo", "theories/Limits/Corr.vo", "theories/Limits/RemoteCorr.vo"])
     ctx.oblige("coq build of Props/C11.vo and its dependencies", ok, detail)
     core.audit(ctx)
     if not ok:
         return
     core.check_theorems(ctx, "theories/Props/C11.v", "Props.C11")
-    ov = core.write_overlay(ctx, {"internal/limits/zz_verif_c11_test.go": "harness/c11/c11_test.go"},
-                            {"internal/limits": "limits"})
+    ov = core.write_overlay(ctx, {"internal/limits/zz_verif_c11_test.go": "harness/c11/c11_test.go",
+                                  "internal/target/remote/zz_verif_c11r_test.go": "harness/c11/c11_remote_test.go"},
+                            {"internal/limits": "limits", "internal/target/remote": "remote"})
     core.generic_corr(ctx, overlay=ov, pkg="internal/limits", run="TestVerif_C11",
                       n=(400 if ctx.tier == "quick" else 15000), corr_module="Limits.Corr", clause_names=CLAUSES,
                       name="limits", shard=500)
+    core.generic_corr(ctx, overlay=ov, pkg="internal/target/remote", run="TestVerif_C11Remote",
+                      n=(60 if ctx.tier == "quick" else 1200), corr_module="Limits.RemoteCorr", clause_names=CLAUSES,
+                      name="remote", shard=600)
     st = ctx.stats.get("limits", {})
     def num(k):
         try:
